@@ -246,6 +246,33 @@ def task_pumped(L, n=5000):
     return rec.result(worlds=len(worlds))
 
 
+def task_pumped_int():
+    """the same for int values: a witness m of every path of the int family, replayed as m * 10**5000 and +-10**5000 + m"""
+    eng = Engine()
+    rec = Recorder(eng)
+    v = eng.sym_int("m", -3, 14)
+    worlds = eng.run(drv_one, [v, True])
+    for W in worlds:
+        sat, m = eng.query(W, True)
+        if not sat:
+            continue
+        k = eng.model_value(m, v)
+        for big in (k * 10 ** 5000, 10 ** 5000 + k, -(10 ** 5000) + k):
+            if -100 < big < 100:
+                continue
+            r = replay_one(big)
+            rec.validated += 1
+            if r is not None:
+                r["input"] = f"an int of about 5000 digits built from the witness {k} (k * 10**5000, 10**5000 + k, -10**5000 + k)"
+                r["tag"] = "pumped-value"
+                r["observed"] = str(r["observed"])[:200]
+                r["expected"] = "unchanged, no exception"
+                rec.violations.append(r)
+                return rec.result(worlds=len(worlds))
+        rec.witness("pumped", W)
+    return rec.result(worlds=len(worlds))
+
+
 def task_int(lo, hi):
     eng = Engine()
     rec = Recorder(eng)
@@ -424,9 +451,10 @@ def main():
         for L1 in (3, 2, 1):
             for L2 in (3, 2, 1):
                 chk.add_task(f"two-{kind}-{L1}+{L2}", task_two, L1=L1, L2=L2, kind=kind)
-    chk.bounds["pumped values"] = "every execution path of the numeric family of length 1..2: up to 3 solver witnesses, each replayed on the real code with every character repeated 5000 times (longer than the interpreter's limit for int())"
+    chk.bounds["pumped values"] = "every execution path of the numeric family of length 1..2: up to 3 solver witnesses, each replayed on the real code with every character repeated 5000 times (longer than the interpreter's limit for int()); int witnesses scaled to about 10**5000 (beyond the limit for str(int))"
     for L in (2, 1):
         chk.add_task(f"pumped-L{L}", task_pumped, L=L)
+    chk.add_task("pumped-int", task_pumped_int)
     chk.add_task("int", task_int, lo=ir[0], hi=ir[1])
     chk.add_task("absent", task_absent)
     for ka in MWS:
